@@ -91,26 +91,38 @@ func c11RunUnderFakeClock(c *Case) (string, []Fail) {
 	if _, err := os.Stat(ft); err != nil {
 		return "nochild:missing-faketime-harness", nil
 	}
-	ctx, cancel := context.WithTimeout(context.Background(), 60*time.Second)
-	defer cancel()
-	cmd := exec.CommandContext(ctx, ft, "C11", "child", c.Line())
-	r, w, err := os.Pipe()
-	if err != nil {
-		return "nochild:pipe", nil
-	}
-	cmd.ExtraFiles = []*os.File{w}
-	if err := cmd.Start(); err != nil {
+	// The fake-clock runtime occasionally wedges a child at start-up under heavy machine load (seen twice in
+	// 200 000 thorough cases: killed by the 60 s deadline before it had written anything). A child that dies
+	// without output is therefore retried; only a case that fails three times in a row is reported.
+	var lines []string
+	var werr error
+	for attempt := 0; attempt < 3; attempt++ {
+		ctx, cancel := context.WithTimeout(context.Background(), 60*time.Second)
+		cmd := exec.CommandContext(ctx, ft, "C11", "child", c.Line())
+		r, w, err := os.Pipe()
+		if err != nil {
+			cancel()
+			return "nochild:pipe", nil
+		}
+		cmd.ExtraFiles = []*os.File{w}
+		if err := cmd.Start(); err != nil {
+			w.Close()
+			r.Close()
+			cancel()
+			return "nochild:start", nil
+		}
 		w.Close()
+		data, _ := io.ReadAll(r)
 		r.Close()
-		return "nochild:start", nil
+		werr = cmd.Wait()
+		cancel()
+		lines = strings.Split(strings.TrimRight(string(data), "\n"), "\n")
+		if len(lines) > 0 && lines[0] != "" {
+			break
+		}
 	}
-	w.Close()
-	data, _ := io.ReadAll(r)
-	r.Close()
-	werr := cmd.Wait()
-	lines := strings.Split(strings.TrimRight(string(data), "\n"), "\n")
 	if len(lines) == 0 || lines[0] == "" {
-		return fmt.Sprintf("childfailed:%v", werr), []Fail{{"c11:panic", fmt.Sprintf("fake-clock child died (%v) on %s", werr, c11Short(c.Line()))}}
+		return fmt.Sprintf("childfailed:%v", werr), []Fail{{"c11:panic", fmt.Sprintf("fake-clock child died three times (%v) on %s", werr, c11Short(c.Line()))}}
 	}
 	var fails []Fail
 	for _, l := range lines[1:] {
